@@ -135,6 +135,12 @@ CHECKS["C10"] = _e("model_checking",
     "Two open known findings (stale well-formed pointer is trusted; a never-committed metadata file left by a dead committer - or adopted in flight under a broken lock - is surfaced once the pointer is lost) are kept as must-fail model companions and reproduced on the real code each run. Pointer damage is applied while no operation is in flight. Ambiguous (possibly committed) versions are not combined with pointer damage.",
     "TLA+ protocol spec with pointer-damage actions model-checked by TLC; trace validation of real executions with byte-level pointer damage after injected commit failures")
 
+CHECKS["C19"] = _e("model_checking",
+    "S3Lock.tla: the conditional-write S3 lock at the granularity one request / one deciding clock read / one sleep = one action (create If-None-Match, HEAD + age check + takeover PUT If-Match, renewal by a separate heartbeat actor, is_held GET with its NoSuchKey retry, release GET + DELETE), ETag as a function of the body, repairs behind flags probed on the code under test; FLock.tla: FileLock at syscall granularity on a kernel model (directory entry, inode, open descriptions, flock table keyed by inode, close/process death release). Reference rules judged on interface events only: TakeoverOnlyAfterLapse, ReleaseDeletesOnlyOwn, HolderStable, SupersededObserves, AcquireMeansOwner, TimeoutHonoured, AtMostOneBeliever; MutualExclusion, DeathReleases, NoUnlinkRace. TLC explores 2-3 clients with clock ticks everywhere (must-fail companions: unlink on release, blocking flock, O_EXCL stale break, each S3 flag alone). Binding: real S3LockProvider instances on an in-memory S3 and real FileLock instances under the baton scheduler with a virtual clock, one scheduler decision = one spec action; systematic pause/lapse/heartbeat schedules, TLC counterexamples and simulated behaviours replayed, seeded random walks; each trace validated by TLC (strict conformance, then reference rules); plus real multi-process stress logs (loop, kill, block) validated by TLC.",
+    "DESIGN.md 6/C19; notes/C19.md",
+    "Open known finding: the S3 release is GET-compare-then-unconditional-DELETE, a stalled release deletes the next holder's lock object. No transport faults on lock requests; one clock for clients and S3; S3PollingLockProvider not claimed; stress experiments are probabilistic (the deterministic thread binding guarantees detection).",
+    "TLA+ lock specs (S3 request level, flock syscall level) model-checked by TLC; trace validation of real scheduled lock executions and of real multi-process logs")
+
 NOT_YET: dict = {}
 
 
